@@ -211,6 +211,26 @@ theorem atou32_digit_string (base : BitVec 8) (chars : List Byte) (t : Byte) (re
       = some (BitVec.ofNat 32 (ofDigits base.toNat (chars.map digitValue)), chars.length) := by
   simp [atou32, atouLoop_parse _ _ chars t rest 0 h ht, ofNat_mod 32]
 
+/-- the 8- and 16-bit parsers return the 32-bit result narrowed: the positional value modulo 2^8 / 2^16 -/
+theorem atou16_atou8_digit_string (base : BitVec 8) (chars : List Byte) (t : Byte) (rest : List Byte)
+    (h : ∀ c ∈ chars, digitValue c < base.toNat) (ht : ¬ digitValue t < base.toNat) :
+    atou16 (chars ++ t :: rest) 0 base
+      = some (BitVec.ofNat 16 (ofDigits base.toNat (chars.map digitValue)), chars.length) ∧
+    atou8 (chars ++ t :: rest) 0 base
+      = some (BitVec.ofNat 8 (ofDigits base.toNat (chars.map digitValue)), chars.length) := by
+  simp [atou16, atou8, atou32_digit_string base chars t rest h ht, BitVec.truncate_eq_setWidth,
+    BitVec.setWidth_ofNat_of_le]
+
+/-- without a leading `'-'` the signed parsers are the unsigned ones (value reinterpreted) -/
+theorem atoi_without_sign (base : BitVec 8) (m : List Byte) (c : Byte) (h0 : m[0]? = some c) (hc : c ≠ 0x2D#8) :
+    atoi64 m base = atou64 m 0 base ∧ atoi32 m base = atou32 m 0 base := by
+  have : (c == 0x2D#8) = false := by simpa using hc
+  constructor
+  · simp only [atoi64, h0, this, Bool.false_eq_true, if_false]
+    cases atou64 m 0 base <;> simp
+  · simp only [atoi32, h0, this, Bool.false_eq_true, if_false]
+    cases atou32 m 0 base <;> simp
+
 /-- the NUL terminates a number in every base (`uint8_t base` ≤ 255 = digit_value('\0')) -/
 theorem nul_stops (base : BitVec 8) : ¬ digitValue 0#8 < base.toNat := by
   rw [digitValue_nul]; have := base.isLt; omega
